@@ -20,6 +20,21 @@ fn superpos<T: Dom>(vk: VK, k: usize) {
         }
     }
 }
+/// the same over a run of more than 256 updates, stated only from step `from` on (whatever a step counter gates is reached)
+fn superpos_late<T: Dom>(vk: VK, k: usize, from: usize) {
+    let (mut vx, mut vy, mut vz) = (build::<T>(&vk, echo()), build::<T>(&vk, echo()), build::<T>(&vk, echo()));
+    let (a, b) = (T::input("a"), T::input("b"));
+    for t in 0..k {
+        let (x, y) = (T::input(&format!("x{t}")), T::input(&format!("y{t}")));
+        vx.update(x); vy.update(y); vz.update(a * x + b * y);
+        if t < from { continue; }
+        match (vx.last(), vy.last(), vz.last()) {
+            (Some(p), Some(q), Some(r)) => T::oblige(&format!("{} t={t}: view(a*x+b*y) == a*view(x)+b*view(y)", vk.name()), eq(r, a * p + b * q)),
+            (None, None, None) => {}
+            _ => T::oblige(&format!("{} t={t}: readiness does not depend on the values", vk.name()), Cond::Bool(false)),
+        }
+    }
+}
 fn superpos_gamma<T: Dom>(k: usize) {
     let g = T::input("gamma");
     T::assume(Cond::And(vec![le(T::zero(), g), lt(g, T::one())]));
@@ -75,13 +90,18 @@ pub fn units(tier: Tier, _seed: u64) -> Vec<Unit> {
         u.push(unit!(format!("C10/superposition/LaguerreFilter({g})/k=10"), superpos(VK::LaguerreFilter(g), 10usize)));
         u.push(unit!(format!("C10/dc-exact/LaguerreFilter({g})/k=10"), dc(VK::LaguerreFilter(g), 10usize, Dc::Exact)));
     }
+    let first = u.len();
+    for vk in [VK::Sma(3), VK::Sma(5), VK::Cumulative(3)] {
+        u.push(unit!(format!("C10/superposition/{}/k=262/stated-from-254", vk.name()), superpos_late(vk.clone(), 262usize, 254usize)));
+    }
+    for x in u.iter_mut().skip(first) { x.budget_s = 40.0; x.path_cap = 300; x.max_decisions = 60000; }
     u.push(unit!("C10/superposition/LaguerreFilter(gamma symbolic)/k=5", superpos_gamma(if tier == Tier::Quick { 4usize } else { 5usize })));
     u
 }
 pub fn meta() -> Meta {
     Meta {
         functions: vec!["Sma", "Ema", "Alma", "Cumulative", "LaguerreFilter", "SuperSmoother", "RoofingFilter", "CyberCycle — each ::{new,update,last}, three instances driven on x, y and a*x+b*y"],
-        bounds: "N in {1..10,12,16} (quick) / {1..13,16,20,32} (thorough); k = 2N+4 (N+M+5 for Roofing); a, b, c and all inputs are solver variables (any reals, including 0 and negatives); LaguerreFilter gamma in {0,.2,.5,.8,.95} and symbolic gamma in [0,1) for k<=5; DC obligations at t = 8N (+warm-up)",
+        bounds: "N in {1..10,12,16} (quick) / {1..13,16,20,32} (thorough); k = 2N+4 (N+M+5 for Roofing); superposition also over 262 updates (stated from step 254 on) for Sma(3), Sma(5), Cumulative(3), all comparison paths (the recursive filters' exact coefficients make the same run unaffordable); a, b, c and all inputs are solver variables (any reals, including 0 and negatives); LaguerreFilter gamma in {0,.2,.5,.8,.95} and symbolic gamma in [0,1) for k<=5; DC obligations at t = 8N (+warm-up)",
         outside: vec!["f64 rounding ('up to rounding in f64')", "N > 16, longer streams", "DC convergence slower than the stated horizon"],
         assumptions: vec!["filter coefficients (exp/cos/sin of concrete arguments) are evaluated with the platform libm and enter as exact rationals"],
     }
